@@ -264,6 +264,29 @@ func run(c *engine.Ctx) {
 			r.one("unquoted", "  "+kw+"\n\t"+u+"\n{ }", kw, u, true)
 		}
 	}
+	// character sweep: every printable ASCII character, and in nine other blocks of the code space
+	// (2-, 3- and 4-byte encodings) every character whose low byte is that of a character the lexer
+	// treats specially (white space, quotes, + / * ; { } and the backslash), inside / in front of /
+	// behind a word: the unquoted, single-quoted, double-quoted and concatenated spellings give the
+	// same argument
+	for _, ch := range sweepRunes() {
+		for fi, word := range []string{"x" + string(ch) + "y", string(ch) + "y", "x" + string(ch), string(ch)} {
+			if c.Expired() {
+				return
+			}
+			dq := strings.NewReplacer("\\", "\\\\", "\"", "\\\"").Replace(word)
+			r.one("sweep", "  description \""+dq+"\";", "description", word, true)
+			r.one("sweep", "  m:ext \"x\" + \""+dq+"\";", "m:ext", "x"+word, true)
+			if ch != '\'' {
+				r.one("sweep", "  description '"+word+"';", "description", word, true)
+				r.one("sweep", "  reference '"+word+"' + \"\";", "reference", word, true)
+			}
+			if !strings.ContainsRune(" \t\r\n;{}\"'", ch) && !(fi == 3 && ch == '+') && !strings.Contains(word, "//") && !strings.Contains(word, "/*") {
+				r.one("sweep", "  description "+word+";", "description", word, true)
+				r.one("sweep", "  m:ext "+word+" { }", "m:ext", word, true)
+			}
+		}
+	}
 	// escape sequences: every string of <= 5 symbols over {a, blank, \\\\, \\n, \\t, \\"} in one double-quoted piece
 	syms := []string{"a", " ", "\\\\", "\\n", "\\t", "\\\""}
 	var esc func(src string, n int)
@@ -286,6 +309,20 @@ func run(c *engine.Ctx) {
 	}
 	esc("", 0)
 	c.Sample(map[string]any{"statement": "description 'x\\\\n' /*c*/ + // c\n \"q\\\"r\";", "expected": "x\\\\nq\"r"})
+}
+
+func sweepRunes() []rune {
+	var out []rune
+	for ch := rune(0x21); ch <= 0x7e; ch++ {
+		out = append(out, ch)
+	}
+	out = append(out, 0x85, 0xa0, 0xad)
+	for _, base := range []rune{0x0100, 0x0400, 0x2000, 0x2100, 0x3000, 0x4e00, 0xff00, 0x10000, 0x1f600} {
+		for _, low := range []rune{0x09, 0x0a, 0x0d, 0x20, 0x22, 0x27, 0x2a, 0x2b, 0x2f, 0x3b, 0x5c, 0x7b, 0x7d} {
+			out = append(out, base+low)
+		}
+	}
+	return out
 }
 
 // adjacentEscape: an escape that produces white space next to a stripped region
